@@ -111,6 +111,61 @@ func main() {
 			}
 		}
 		json.NewEncoder(os.Stdout).Encode(r)
+	case "list":
+		ss, _ := bodies.Scenarios(*repo)
+		var names []string
+		for _, s := range ss {
+			names = append(names, s.Name())
+		}
+		json.NewEncoder(os.Stdout).Encode(names)
+	case "race-cold":
+		// Cold start: the concurrent compilations are the FIRST thing this process does (lazily built
+		// package-level tables are still unbuilt); the solo outputs are computed afterwards.
+		ss, missing := bodies.Scenarios(*repo)
+		type res struct {
+			Scenarios  int      `json:"scenarios"`
+			Runs       int      `json:"runs"`
+			Mismatches []string `json:"mismatches"`
+			Missing    []string `json:"missing"`
+		}
+		r := res{Missing: missing}
+		for _, s := range ss {
+			if s.Name() != *only {
+				continue
+			}
+			r.Scenarios++
+			n := len(s.Labels())
+			st, err := s.Fresh()
+			if err != nil {
+				fmt.Fprintln(os.Stderr, s.Name(), err)
+				os.Exit(2)
+			}
+			outs := make([]bodies.Out, n)
+			var wg sync.WaitGroup
+			start := make(chan struct{})
+			for t := 0; t < n; t++ {
+				wg.Add(1)
+				go func() {
+					defer wg.Done()
+					<-start
+					outs[t] = s.Run(st, t)
+				}()
+			}
+			close(start)
+			wg.Wait()
+			r.Runs++
+			for t := 0; t < n; t++ {
+				fs, err := s.Fresh()
+				if err != nil {
+					fmt.Fprintln(os.Stderr, s.Name(), err)
+					os.Exit(2)
+				}
+				if solo := s.Run(fs, t); !outs[t].Equal(solo) {
+					r.Mismatches = append(r.Mismatches, fmt.Sprintf("%s: thread %d (%s) output %s differs from solo %s", s.Name(), t, s.Labels()[t], outs[t].Digest(), solo.Digest()))
+				}
+			}
+		}
+		json.NewEncoder(os.Stdout).Encode(r)
 	default:
 		fmt.Fprintln(os.Stderr, "unknown subcommand", os.Args[1])
 		os.Exit(2)
